@@ -220,6 +220,55 @@ theorem c43_json_readAllResults {α : Type} (z : α) (toks : List (Option α)) :
       simp only [List.length_cons, JIt.readAllResults, JIt.next, jsonResultsSpec] at this ⊢
       simpa using this
 
+/-- No read-ahead, counted at the source: draining `Limit(FromSlice(xs), lim)` (lim > 0, any state) makes
+at most one `Next` call on the source beyond the values it yields, and exactly as many calls as values
+yielded when the limit is what stopped it. -/
+theorem c43_limit_src_next_calls (lim : Int) (hl : lim > 0) (fuel : Nat) :
+    ∀ (l : LSt) (st : SrcSt),
+      let r := drain (.limit lim .src) fuel (l, st)
+      SrcSt.nexts r.1.2 ≤ st.nexts + r.2.length + 1 ∧
+      (((l.count + r.2.length : Nat) : Int) ≥ lim → SrcSt.nexts r.1.2 = st.nexts + r.2.length) := by
+  induction fuel with
+  | zero => intro l st; simp [drain]
+  | succ fuel ih =>
+    intro l st
+    by_cases hc : lim > 0 ∧ (l.count : Int) ≥ lim
+    · simp [drain, next, hc]
+    · have hc' : ¬ (l.count : Int) ≥ lim := fun h => hc ⟨hl, h⟩
+      cases hr : SrcSt.rest st with
+      | nil =>
+        simp [drain, next, hc, hr]
+        omega
+      | cons x r =>
+        have := ih { l with count := l.count + 1 } ({ st with rest := r, val := x, nexts := SrcSt.nexts st + 1 } : SrcSt)
+        simp [drain, next, hc, hr] at this ⊢
+        omega
+
+theorem c43_limit_src_next_calls_fresh (lim : Int) (hl : lim > 0) (xs : List Int) :
+    (source _ (readAll (.limit lim .src) (fresh xs _)).1).nexts ≤ (xs.take lim.toNat).length + 1 ∧
+    (lim.toNat ≤ xs.length → (source _ (readAll (.limit lim .src) (fresh xs _)).1).nexts = lim.toNat) := by
+  have h := c43_limit_src_next_calls lim hl (remaining (.limit lim .src) (fresh xs _) + 1) {} (fresh xs .src)
+  have hv : (readAll (.limit lim .src) (fresh xs _)).2 = xs.take lim.toNat := by
+    have := c43_readAll (.limit lim .src) (fresh xs _)
+    simpa [toList, fresh, hl] using this
+  have hs : (source _ (readAll (.limit lim .src) (fresh xs _)).1).nexts =
+      SrcSt.nexts (drain (.limit lim .src) (remaining (.limit lim .src) (fresh xs _) + 1) (fresh xs _)).1.2 := by
+    simp only [readAll, source_close]
+    rfl
+  have hv' : (drain (.limit lim .src) (remaining (.limit lim .src) (fresh xs _) + 1) (fresh xs _)).2 = xs.take lim.toNat := hv
+  rw [hs]
+  have h1 := h.1
+  have h2 := h.2
+  simp only [fresh] at h1 h2 hv' ⊢
+  rw [hv'] at h1 h2
+  simp only [List.length_take] at h1 h2 ⊢
+  constructor
+  · simpa using h1
+  · intro hle
+    have h3 := h2 (by simp; omega)
+    simp at h3
+    omega
+
 /-! Non-vacuity: concrete, non-trivial instances (a depth-3 composition with a positive limit). -/
 example : (readAll (.limit 2 (.filter (fun x => x % 2 == 0) (.map (· + 1) .src)))
     (fresh [1, 2, 3, 4, 5, 6] _)).2 = [2, 4] := by decide
@@ -229,5 +278,8 @@ example : (readAll (.limit 0 (.map (· * 2) .src)) (fresh [1, 2, 3] _)).2 = [2, 
 
 example : JIt.run 4 (JIt.fresh ([] : List Int) [some [1, 2, 3], some [4, 5], some [6]]) =
     [some [1, 2, 3], some [4, 5], some [6]] := by decide
+
+example : (source _ (readAll (.limit 2 .src) (fresh [1, 2, 3, 4, 5] _)).1).nexts = 2 := by decide
+example : (source _ (readAll (.limit 7 .src) (fresh [1, 2, 3] _)).1).nexts = 4 := by decide
 
 end C43
